@@ -367,7 +367,7 @@ def load (memLimit d : Nat) (s : Bytes) : Except Err (Value × Bytes) :=
       match body.drop n with
       | [] => .error .index
       | tag :: rest =>
-        match parseTop (n + 2) d tag (body.take n) with
+        match parseTop (s.length + 2) d tag (body.take n) with
         | .ok v => .ok (v, rest)
         | .error e => .error e
 
